@@ -700,6 +700,125 @@ pub fn one_case(d: &mut Draw) -> Outcome {
     evaluate(&case)
 }
 
+// ---------------------------------------------------------------------------
+// the polarity-agnostic `clock` / `reset` types under every [build] setting
+// ---------------------------------------------------------------------------
+
+const PROJECT_TYPES_DESIGN: &str = r#"module Top (
+    clk: input  clock,
+    rst: input  reset,
+    en : input  logic,
+    q  : output logic<4>,
+) {
+    always_ff {
+        if_reset {
+            q = 4'h5;
+        } else if en {
+            q = q + 4'd1;
+        }
+    }
+}
+"#;
+
+fn analyze_with_build(text: &str, clock: veryl_metadata::ClockType, reset: veryl_metadata::ResetType) -> Result<veryl_analyzer::ir::Ir, String> {
+    use veryl_analyzer::{Analyzer, Context, symbol_table};
+    symbol_table::clear();
+    let mut metadata = veryl_metadata::Metadata::create_default("prj").map_err(|e| e.to_string())?;
+    metadata.build.clock_type = clock;
+    metadata.build.reset_type = reset;
+    let parser = veryl_parser::Parser::parse(text, &"").map_err(|e| e.to_string())?;
+    let analyzer = Analyzer::new(&metadata);
+    let mut context = Context::default();
+    let mut ir = veryl_analyzer::ir::Ir::default();
+    let mut errors = vec![];
+    errors.append(&mut analyzer.analyze_pass1("prj", &parser.veryl));
+    errors.append(&mut Analyzer::analyze_post_pass1());
+    errors.append(&mut analyzer.analyze_pass2(&parser.veryl, &mut context, Some(&mut ir)));
+    errors.append(&mut Analyzer::analyze_post_pass2(&ir));
+    if let Some(e) = errors.iter().find(|e| e.is_error()) {
+        return Err(e.to_string());
+    }
+    Ok(ir)
+}
+
+/// `clock` / `reset` mean what `[build] clock_type / reset_type` say (the
+/// emitter and the simulator's `abstract_reset_*` follow them): the flip-flops
+/// of the netlist must carry that edge / polarity / synchronicity.
+fn project_types_case(p: &Value) -> Outcome {
+    use veryl_metadata::{ClockType, ResetType};
+    use veryl_synthesizer::ir::{ClockEdge, ResetPolarity};
+    let ck = p["clock_type"].as_str().unwrap_or("posedge").to_string();
+    let rs = p["reset_type"].as_str().unwrap_or("async_low").to_string();
+    let clock = if ck == "negedge" { ClockType::NegEdge } else { ClockType::PosEdge };
+    let (reset, high, sync) = match rs.as_str() {
+        "async_high" => (ResetType::AsyncHigh, true, false),
+        "sync_low" => (ResetType::SyncLow, false, true),
+        "sync_high" => (ResetType::SyncHigh, true, true),
+        _ => (ResetType::AsyncLow, false, false),
+    };
+    let ir = match analyze_with_build(PROJECT_TYPES_DESIGN, clock, reset) {
+        Ok(ir) => ir,
+        Err(e) => return Outcome::skip(format!("analyzer rejects the design ({e})")),
+    };
+    let top = veryl_parser::resource_table::insert_str("Top");
+    let sr = match veryl_synthesizer::synthesize_with(&ir, top, Library::Sky130, RamConfig::default()) {
+        Ok(r) => r,
+        Err(e) => return Outcome::skip(format!("synthesizer rejects the design ({})", reject_reason(&e))),
+    };
+    let m = &sr.gate_ir.module;
+    let mut wrong = vec![];
+    for f in &m.ffs {
+        let want = if ck == "negedge" { ClockEdge::Negedge } else { ClockEdge::Posedge };
+        if f.clock_edge != want {
+            wrong.push(format!("clock edge {} (project: {ck})", f.clock_edge));
+        }
+        match &f.reset {
+            None => wrong.push("no reset".to_string()),
+            Some(r) => {
+                if matches!(r.polarity, ResetPolarity::ActiveHigh) != high {
+                    wrong.push(format!("reset polarity {} (project: {rs})", r.polarity));
+                }
+                if r.sync != sync {
+                    wrong.push(format!("reset {} (project: {rs})", if r.sync { "sync" } else { "async" }));
+                }
+            }
+        }
+    }
+    wrong.sort();
+    wrong.dedup();
+    if m.ffs.len() != 4 {
+        return Outcome::fail("project-types:flip-flop-count", format!("{} flip-flops for a 4-bit counter", m.ffs.len()), p.clone());
+    }
+    if wrong.is_empty() {
+        Outcome::pass(hash_str(&format!("{ck}/{rs}")), true, vec![format!("project:{ck}/{rs}")], format!("[build] clock_type = {ck}, reset_type = {rs}\n{PROJECT_TYPES_DESIGN}"))
+    } else {
+        Outcome::fail(
+            "build-clock-reset-type-ignored",
+            format!("[build] clock_type = \"{ck}\", reset_type = \"{rs}\": the flip-flops of the netlist have {}\n{PROJECT_TYPES_DESIGN}\n{}", wrong.join(", "), sr.gate_ir),
+            p.clone(),
+        )
+    }
+}
+
+fn project_types(ctx: &Ctx) {
+    if ctx.replay_mode() && ctx.replay_for("project-types").is_none() {
+        return;
+    }
+    if let Some(v) = ctx.replay_for("project-types") {
+        let p = v["payload"].clone();
+        let out = recorded_on_own_thread(&p, project_types_case);
+        ctx.record("project-types", out, p);
+        return;
+    }
+    for ck in ["posedge", "negedge"] {
+        for rs in ["async_low", "async_high", "sync_low", "sync_high"] {
+            let p = json!({"clock_type": ck, "reset_type": rs, "veryl": PROJECT_TYPES_DESIGN});
+            let out = recorded_on_own_thread(&p, project_types_case);
+            ctx.record("project-types", out, p);
+        }
+    }
+}
+
 #[allow(dead_code)]
 pub fn run(ctx: &Ctx) {
     if let Err(e) = crate::gate_eval::self_test() {
@@ -711,11 +830,12 @@ pub fn run(ctx: &Ctx) {
         std::process::exit(2);
     }
     ctx.run_payloads("recorded", |p| recorded_on_own_thread(p, replay_recorded));
+    project_types(ctx);
     let n = std::env::var("C19_CASES").ok().and_then(|s| s.parse::<usize>().ok()).unwrap_or(ctx.scale(400, 30_000));
-    ctx.run("cases", CaseCfg::cases(n).choices(12_000).timeout_s(600), |d| discover("C19", one_case(d)));
+    ctx.run("cases", CaseCfg::cases(n).choices(60_000).timeout_s(600), |d| discover("C19", one_case(d)));
     ctx.assume("the gate evaluator implements the doc comments of crates/synthesizer/src/ir.rs; what they leave open (RAM words never written, state before the first reset, out-of-range RAM addresses, read/write collision on a registered read) is X and not compared");
     ctx.assume("the RTL side is veryl's simulator with the default Config, driven as vdesign's driver does (inputs, one clock edge with the reset asserted around it on reset steps, sample); where vdesign's IEEE 1800 reference says the RTL simulator is wrong and the netlist right, the case is counted as skipped (simulator matter)");
-    ctx.assume("the plain `reset` / `clock` types mean async-low / posedge (Metadata::create_default); a [build] reset_type other than the default is outside what this check drives");
+    ctx.assume("generated cases use the default project settings: plain `reset` / `clock` mean async-low / posedge (Metadata::create_default); the other [build] clock_type / reset_type values are covered structurally by the enumerated sub-check `project-types`");
     ctx.finish(
         "translation_validation",
         "vdesign designs in the synthesizable dialect (no **, widths <= 64, mul/div at small widths, hierarchy, counters, case decoding, small arrays) and memory-shaped modules (1-3 write sites: plain / unconditional / masked RMW / sub-word lanes / if-else / case arm; 1-3 reads: assign / registered / re-assigned index / sub-word / computed address; flat or in 1-2 child instances) x stimulus x clock/reset type x 4 libraries x RamConfig drawn around the array size and port counts; non-trivial = netlist has FFs and > 20 cells, or a RAM block, and some known output bit was compared and some output changed; distinct by text + options + stimulus",
